@@ -85,8 +85,8 @@ def rnd_value(rng, e, allow_capture):
 
 
 def subst_targets(rng, e):
-    bound = sorted({t[0].name for ps in e.atoms(PoolSum) for t in ps.args[1:]})
-    free = sorted(s.name for s in e.free_symbols)
+    bound = sorted({t[0].name for ps in e.atoms(M.SpecSum) for t in ps.args[1:]})
+    free = sorted(s.name for s in e.atoms(sp.Symbol))
     every = sorted(s.name for s in e.atoms(sp.Symbol))
     n = rng.choice([1, 1, 2, 3])
     out = []
@@ -97,6 +97,22 @@ def subst_targets(rng, e):
     return out
 
 
+def _fixed():
+    S = M.SpecSum
+    a, b, i, j, x, y = sp.symbols("a b i j x y")
+    return [
+        lambda: S(x**i, (i, (1, 1))),                                   # repeated pool value counts twice
+        lambda: S(x**i, (i, (a, b))),                                   # pool values merged by a -> b
+        lambda: S(x**i * j, (i, (a, b, a)), (j, (1, sp.Rational(1, 2), 1))),
+        lambda: S(x * i * j + y, (i, (0,)), (j, (1, 2, 3))),            # singleton value cancels another index
+        lambda: S(j**i + y, (i, (0,)), (j, (2, 3))),
+        lambda: S((i - 1) * j + x, (j, (2, 3)), (i, (1,))),
+    ]
+
+
+FIXED = _fixed()
+
+
 def gen(seed, n_expr):
     rng = random.Random(seed * 7919 + 18)
     cases = []
@@ -104,9 +120,14 @@ def gen(seed, n_expr):
     n_done = 0
     while n_done < n_expr and tries < 20 * n_expr + 100:
         tries += 1
-        kind = rng.choice(["plain"] * 5 + ["shadow"] * 3 + ["quirk", "builder", "builder", "wrapped"])
+        kind = rng.choice(["plain"] * 5 + ["shadow"] * 3 + ["cancel"] * 2 + ["quirk", "builder", "builder", "wrapped"])
         try:
-            if kind == "builder":
+            # the generators return SpecSum trees: the case description never passes through ampform's constructor
+            if n_done < len(FIXED):
+                kind, e = "fixed", FIXED[n_done]()
+            elif kind == "cancel":
+                e = M.gen_cancel(rng)
+            elif kind == "builder":
                 e = M.gen_builder_nest(rng)
             elif kind == "shadow":
                 e = M.gen_shadow_nest(rng)
@@ -125,10 +146,15 @@ def gen(seed, n_expr):
                 e = w(e)
                 ops = ["doit", "free_symbols", "subs", "xreplace"]
             tree = M.ser(e)
-            if M.build(tree) != e:
+            if M.ser(M.spec_build(tree)) != tree:
                 continue
             for op in ops:
                 params = None
+                if kind == "fixed" and op in ("subs", "xreplace"):
+                    pair = [["a", ["S", "b"]]] if op == "subs" else [[["S", "a"], ["S", "b"]]]
+                    cases.append({"expr": tree, "op": op, "params": pair, "kind": kind, "text": str(e)[:200],
+                                  "supplier": "tuple"})
+                    continue
                 if op == "subs":
                     params = [[x, M.ser(sp.sympify(rnd_value(rng, e, rng.random() < 0.15)))]
                               for x in subst_targets(rng, e)]
@@ -136,7 +162,7 @@ def gen(seed, n_expr):
                     keys = list(dict.fromkeys(subst_targets(rng, e)))
                     params = [[["S", x], M.ser(sp.sympify(rnd_value(rng, e, rng.random() < 0.15)))]
                               for x in keys]
-                    nodes = sorted(e.atoms(PoolSum), key=str)
+                    nodes = sorted(e.atoms(M.SpecSum), key=str)
                     if nodes and rng.random() < 0.3:
                         params.append([M.ser(rng.choice(nodes)), ["S", "zz"]])
                 cases.append({"expr": tree, "op": op, "params": params, "kind": kind, "text": str(e)[:200],
